@@ -49,6 +49,33 @@ def ref_unified(records):
     return out, conflict
 
 
+_DECOYS = []
+_CALLS = [0]
+
+
+def decoys():
+    """documents in which the identifiers of the alphabet are repeated with other attribute values (in the document
+    and in a bundle), so that whatever a unified() call leaves behind meets the judged call"""
+    if not _DECOYS:
+        import datetime
+        from prov.model import ProvDocument
+        for extra in ({"ex:decoy": 1}, {}):
+            d = ProvDocument()
+            d.add_namespace("ex", machine.U["A"])
+            for scope in (d, d.bundle("ex:b1")):
+                for l in ("x", "y"):
+                    scope.entity("ex:" + l)
+                    scope.entity("ex:" + l, dict(extra, **{"ex:k": 7}))
+                    scope.agent("ex:" + l)
+                    scope.agent("ex:" + l, {"ex:k": "decoy"})
+                scope.activity("ex:x")
+                scope.activity("ex:x", datetime.datetime(2001, 1, 1))
+                scope.generation("ex:x", "ex:a1", identifier="ex:g")
+                scope.generation("ex:x", "ex:a1", identifier="ex:g", other_attributes={"ex:k": 7})
+            _DECOYS.append(d)
+    return _DECOYS
+
+
 PRELUDE = (("ns", "D", "ex", "A"), ("ns", "D", "q", "A"), ("bun", "B1", ("A", "b1", S("ex"))))
 
 
@@ -119,6 +146,14 @@ class C08(spec.Spec):
         multi = len(top) != len(want_top) or any(len(rs) != len(want_b[u]) for u, rs in bundles)
         if multi or conflict:
             out.nontrivial += 1
+        # call history: other documents that repeat the alphabet's identifiers were unified before
+        # (the first judged call of a process - hence every replay - and every 64th after it)
+        _CALLS[0] += 1
+        for decoy in (decoys() if _CALLS[0] % 64 == 1 else ()):
+            try:
+                decoy.unified()
+            except ProvException:
+                pass
         try:
             u = doc.unified()
         except ProvException as e:
